@@ -576,9 +576,12 @@ def emit_obligations(em, counts):
         em.write('Obl_%s.lean' % name, '\n'.join(L) + '\n')
 
 
-def emit_list_with_obligation(em, modname, elem_type, rows, imports, checker, oblname, chunk=150):
+def emit_list_with_obligation(em, modname, elem_type, rows, imports, checker, oblname, chunk=150, extra=()):
     """A generated list `modname.rows` (chunked) together with the obligation that `checker` holds of
-    every row, discharged chunk by chunk by kernel evaluation."""
+    every row, discharged chunk by chunk by kernel evaluation. `extra`: further (checker, obligation
+    name) pairs over the same list, each in its own module."""
+    for (ch2, ob2) in extra:
+        _emit_obligation(em, modname, max(1, -(-len(rows) // chunk)), ch2, ob2)
     chunks = [rows[k:k + chunk] for k in range(0, len(rows), chunk)] or [[]]
     L = ['-- GENERATED by emit_lean.py -- do not edit.'] + ['import %s' % i for i in imports]
     L += ['set_option maxRecDepth 100000', 'namespace PhQVerif.Generated', '']
@@ -597,6 +600,20 @@ def emit_list_with_obligation(em, modname, elem_type, rows, imports, checker, ob
     L.append('theorem %s : %s.rows.all %s = true := by' % (oblname, modname, checker))
     L.append('  unfold %s.rows' % modname)
     L.append('  exact ' + nest(['%s.c%d' % (oblname, ci) for ci in range(len(chunks))]))
+    L += ['', 'end PhQVerif.Generated.Obl']
+    em.write('Obl_%s.lean' % oblname, '\n'.join(L) + '\n')
+
+
+def _emit_obligation(em, modname, nchunks, checker, oblname):
+    L = ['-- GENERATED by emit_lean.py -- obligations discharged by kernel evaluation.',
+         'import PhQVerif.Checkers', 'import PhQVerif.Generated.%s' % modname,
+         'set_option maxRecDepth 100000', 'namespace PhQVerif.Generated.Obl', '']
+    for ci in range(nchunks):
+        L.append('theorem %s.c%d : %s.rows_%d.all %s = true := by decide +kernel' % (
+            oblname, ci, modname, ci, checker))
+    L.append('theorem %s : %s.rows.all %s = true := by' % (oblname, modname, checker))
+    L.append('  unfold %s.rows' % modname)
+    L.append('  exact ' + nest(['%s.c%d' % (oblname, ci) for ci in range(nchunks)]))
     L += ['', 'end PhQVerif.Generated.Obl']
     em.write('Obl_%s.lean' % oblname, '\n'.join(L) + '\n')
 
@@ -844,7 +861,8 @@ def emit_angle_lists(em):
             for fmt in (32, 64, 80):
                 rows_ker.append('(f%d.%s, f%d.%s)' % (fmt, ident(e['id']), fmt, ident(k['id'])))
     imports = ['PhQVerif.Core.Model'] + ['PhQVerif.Generated.%s' % x for x in sorted(mods)]
-    emit_list_with_obligation(em, 'AngleEntries', 'Entry', rows_all, imports, 'Chk.C11clamp', 'C11clamp')
+    emit_list_with_obligation(em, 'AngleEntries', 'Entry', rows_all, imports, 'Chk.C11clamp', 'C11clamp',
+                              extra=[('Chk.C11exact', 'C11exact')])
     emit_list_with_obligation(em, 'AngleSym', 'Entry × Entry', rows_sym, imports, 'Chk.C11sym', 'C11sym')
     emit_list_with_obligation(em, 'AngleKernel', 'Entry × Entry', rows_ker, imports, 'Chk.C11kernel', 'C11kernel')
 
